@@ -71,16 +71,16 @@ type Plan struct {
 
 // Invocation is the log record of one command.
 type Invocation struct {
-	Kind    string   `json:"kind"`
-	Nth     int      `json:"nth"`
-	Args    []string `json:"args"`
-	GitDir  string   `json:"git_dir_env"`
-	Graft   string   `json:"graft_env"`
-	Stdin   string   `json:"stdin,omitempty"`
-	OutLen  int      `json:"out_len"`
-	Exit    int      `json:"exit"`
-	NoRepl  bool     `json:"no_replace_objects"`
-	Served  []string `json:"served,omitempty"`
+	Kind   string   `json:"kind"`
+	Nth    int      `json:"nth"`
+	Args   []string `json:"args"`
+	GitDir string   `json:"git_dir_env"`
+	Graft  string   `json:"graft_env"`
+	Stdin  string   `json:"stdin,omitempty"`
+	OutLen int      `json:"out_len"`
+	Exit   int      `json:"exit"`
+	NoRepl bool     `json:"no_replace_objects"`
+	Served []string `json:"served,omitempty"`
 }
 
 type die struct{ code int }
@@ -473,8 +473,8 @@ func (e *Env) configGet(rest []string, out io.Writer) int {
 // Listing is the imitation of `git rev-list --objects --date-order` for the
 // given roots: the ordered ids and for each non-commit the path column.
 type Listing struct {
-	IDs   []mrepo.ID
-	Path  map[mrepo.ID]string
+	IDs      []mrepo.ID
+	Path     map[mrepo.ID]string
 	IsCommit map[mrepo.ID]bool
 }
 
